@@ -1393,26 +1393,39 @@ class Container:
         if solute not in self.contents:
             raise ValueError(f"Container does not contain {solute.name}.")
 
-        new_ratio, numerator, denominator = Unit.calculate_concentration_ratio(solute, concentration, solvent)
+        if solvent == solute:
+            raise ValueError("Solute and solvent must be different.")
+
+        new_concentration, numerator, denominator = Unit.parse_concentration(concentration)
 
         if numerator == 'U':
             if not solute.is_enzyme():
                 raise TypeError("Solute must be an enzyme.")
 
-        current_ratio = self.contents[solute] / sum(self.contents[substance] for
-                                                    substance in self.contents if not substance.is_enzyme())
-
-        if new_ratio <= 0:
+        if new_concentration <= 0:
             raise ValueError("Solution is impossible to create.")
 
-        if abs(new_ratio - current_ratio) <= 1e-6:
+        def stored_unit(substance):
+            return 'U' if substance.is_enzyme() else config.moles_storage_unit
+
+        # concentration = top / bottom, both measured over the whole mixture as in get_concentration
+        top = Unit.convert_from(solute, self.contents[solute], stored_unit(solute), numerator)
+        bottom = sum(Unit.convert_from(substance, amount, stored_unit(substance), denominator)
+                     for substance, amount in self.contents.items())
+        # what one stored unit of solvent adds to the bottom
+        bottom_per_solvent = Unit.convert_from(solvent, 1, stored_unit(solvent), denominator)
+        if top <= 0 or bottom <= 0 or bottom_per_solvent <= 0:
+            raise ValueError("Solution is impossible to create.")
+
+        if abs(new_concentration * bottom - top) <= 1e-6 * top:
             return deepcopy(self)
 
-        if new_ratio > current_ratio:
+        if new_concentration * bottom > top:
             raise ValueError("Desired concentration is higher than current concentration.")
 
-        current_umoles = Unit.convert_from_storage(self.contents.get(solvent, 0), 'umol')
-        required_umoles = Unit.convert_from_storage(self.contents[solute], 'umol') / new_ratio - current_umoles
+        # top / (bottom + required * bottom_per_solvent) = new_concentration
+        required = (top / new_concentration - bottom) / bottom_per_solvent
+        required_umoles = Unit.convert_from(solvent, required, stored_unit(solvent), 'umol')
         new_volume = self.volume + Unit.convert(solvent, f"{required_umoles} umol", config.volume_storage_unit)
 
         if new_volume > self.max_volume:
